@@ -69,9 +69,10 @@ _F2 = ('class 3 (open item F2): failure after the first new cell was inserted; e
        'internally inconsistent Tds (missing vertex key, non-manifold cavity boundary, broken neighbour symmetry) or '
        'under an injected fault; no input through the public API found that reaches it')
 for _c in ('Cell::new', 'Tds::insert_cell_with_mapping', 'locate::extract_cavity_boundary',
-           'incremental_insertion::external_facets_for_boundary', 'incremental_insertion::wire_cavity_neighbors',
-           'Tds::normalize_coherent_orientation'):
+           'incremental_insertion::external_facets_for_boundary'):
     ASSUMED[F + 'apply_bistellar_flip_with_k|?(%s)' % _c] = _F2
+# the other two post-mutation exits of the kernel (wire_cavity_neighbors, normalize_coherent_orientation) have
+# run-time witnesses on a Tds made inconsistent through the public low-level mutators: known findings (F2)
 
 
 def owners(prog, res):
